@@ -232,8 +232,17 @@ def r3(db, rep):
         thr_call = facts.expr_str(facts.strip_all(ca[2]))
         off_ins = facts.expr_str(facts.strip_all(ia[1])) if len(ia) >= 2 else "?"
         pos_ins = facts.expr_str(ia[0])
-        in_loop = any(l["k"] == "ForStmt" and any(x is calls[0] for x in facts.walk(l)) for l in facts.fn_nodes(f))
-        deref_first = "first" in facts.expr_str(ca[0]) and "[" in facts.expr_str(ca[0])
+        # one call per listed section: inside a loop over `sections` (by index or by iterator), handing over the section's
+        # index through the element's `first`
+        in_loop = False
+        for l in facts.fn_nodes(f):
+            if l["k"] in ("ForStmt", "WhileStmt", "CXXForRangeStmt") and any(x is calls[0] for x in facts.walk(l)):
+                head = [x for x in l["c"] if x is not None][:-1]
+                if any("sections" in facts.expr_str(facts.inline_locals(f, h_)) for h_ in head if h_["k"] != "DeclStmt") or \
+                        any("sections" in facts.expr_str(h_) for h_ in head):
+                    in_loop = True
+        t0 = facts.expr_str(ca[0])
+        deref_first = "first" in t0 and t0.lstrip("(").startswith("*")
         if off_call == off_ins and thr_call in pos_ins and in_loop and deref_first:
             rep.ok("R3-shift", "add_record:same-offset", facts.loc(f, calls[0]),
                    "every listed section is shifted by `%s`, the number of bytes inserted at `%s`" % (off_call, thr_call))
